@@ -71,7 +71,15 @@ def run(ctx):
             checked = set(json.loads(x)["leaf"] for x in open(cf) if x.strip())
             missing = [p for p in (cr.get("info") or {}).get("gl_proof_leaves", []) if p not in checked]
             rnd.shuffle(missing)
-            missing = sorted(missing[:48 if thorough else 16])
+            # one leaf of every class first (when a change unchecks everything, every kind of position is still tried), then seeded ones
+            import re as _re
+            first, seen_cls = [], set()
+            for p in missing:
+                cl = _re.sub(r"\[\d+\]", "[]", p)
+                if cl not in seen_cls:
+                    seen_cls.add(cl)
+                    first.append(p)
+            missing = sorted((first + [p for p in missing if p not in first])[:48 if thorough else max(16, len(first))])
             ctx.extra["unchecked_leaves_" + inst] = missing[:16]
             # ... on every available proof: whether value + k*p still fits below the next bound depends on the value (a proof-of-work
             # witness of 1836 + p passes a 64-bit check, one of 2^60 + p does not)
